@@ -130,8 +130,14 @@ CUSTOM_VARS = {
     "c_lam": (_c_lam, ()), "c_ref": (_c_ref, ()),
 }
 
+# the grid of the case being evaluated (set by build_table): user estimation
+# functions commonly weight by the grid's own coordinate arrays
+_GRID = {}
+
 CUSTOM_ESTS = {
     "center": lambda a: a[a.shape[0] // 2, a.shape[1] // 2, a.shape[2] // 2],
+    "zmoment": lambda a: np.mean(a * _GRID["fd"].z),
+    "xymoment": lambda a: np.sum(a * _GRID["fd"].x * _GRID["fd"].y),
     "corner": lambda a: a[0, 0, 0],
     "rms": lambda a: np.sqrt(np.mean(a * a)),
     "ptp": lambda a: np.max(a) - np.min(a),
@@ -262,6 +268,7 @@ def build_table(case):
     metric = spacetimes.build(case["spec"])
     fd = A.make_fd(case["N"], case["x0"], case["h"], case["order"],
                    case["boundary"])
+    _GRID["fd"] = fd
     rows = []
     for t in case["times"]:
         ex = ref4d.exact(metric, float(t), fd.x, fd.y, fd.z,
